@@ -150,6 +150,18 @@ func runC16(r *core.Run) {
 		}
 		return nil
 	})
+	// numbers on the boundaries of the integer widths a parser may narrow to, in every textual position
+	nums := []string{"0", "1", "9", "10", "255", "256", "65535", "65536", "65537", "131072", "196608", "2147483647", "2147483648", "4294967295", "4294967296",
+		"4294967297", "9223372036854775807", "9223372036854775808", "18446744073709551615", "18446744073709551616", "00000000000000000001"}
+	for _, a := range nums {
+		strs = append(strs, a, "-"+a, "+"+a, a+"mm", a+".", "."+a, "f/"+a, a+"/", "/"+a, "1/"+a+"s")
+		for _, b := range nums {
+			strs = append(strs, a+"/"+b, a+"."+b, "-"+a+"/"+b, "+"+a+"/"+b, a+"/"+b+"mm")
+			if len(strs) >= 400 {
+				flushStrs()
+			}
+		}
+	}
 	flushStrs()
 	if err != nil || nrec == 0 {
 		r.Machinery("reading emitted codec records: %v (n=%d)", err, nrec)
